@@ -282,7 +282,7 @@ func c15Ops(names []string) ([]asmOp, error) {
 		var k int
 		if _, err := fmt.Sscanf(n, "EmitBytes(%d)", &k); err == nil {
 			kk := k
-			out = append(out, asmOp{name: n, real: func(e *asm.Emitter) { e.EmitBytes(dataBlock(kk)) }, model: func(m *asmModel) bool { return !m.emit(itData, dataBlock(kk), -1) }, kind: itData})
+			out = append(out, asmOp{name: n, real: func(e *asm.Emitter) { emitBytesAndScribble(e, dataBlock(kk)) }, model: func(m *asmModel) bool { return !m.emit(itData, dataBlock(kk), -1) }, kind: itData})
 			continue
 		}
 		var an, ad int
